@@ -16,7 +16,7 @@ PROPERTY = "C07"
 FILES = ["solvor/dlx.py", "solvor/types.py"]
 FUNCTIONS = ["solvor.dlx.solve_exact_cover (incl. nested search)", "solvor.dlx._build_links", "solvor.dlx._cover", "solvor.dlx._uncover"]
 BOUNDS = {
-    "quick": "every 0/1 matrix of shapes 1x1..3x3, 2x4, 4x2, 4x3 (cells symbolic), every secondary-column subset for <=3 columns (3 subsets "
+    "quick": "matrices without rows / without columns; every 0/1 matrix of shapes 1x1..3x3, 2x4, 4x2, 4x3 (cells symbolic), every secondary-column subset for <=3 columns (3 subsets "
              "for 4), find_all on/off, default / string / 1-based / reversed integer column labels; max_solutions>=0 and max_iter>=0 symbolic Ints on shapes up to 3x3; "
              "cover/uncover inverse law (single and nested LIFO pair) on every matrix up to 3x3 and 4x3",
     "thorough": "adds 3x4, 4x4 (all 65536 matrices, no secondary / last column secondary), 5x3, symbolic limits up to 3x4",
